@@ -69,7 +69,7 @@ func splitOps(toks []string) [][]string {
 }
 
 func newHist(cfg []string) *hist {
-	if len(cfg) != 6 || cfg[0] != "cfg" {
+	if len(cfg) != 7 || cfg[0] != "cfg" {
 		panic(fmt.Sprintf("bad cfg segment %v", cfg))
 	}
 	h := &hist{ft: cfg[1] == "1", wbuf: cfg[2] == "1", laddrOK: cfg[3] == "1", rt: atoi(cfg[4]),
@@ -532,7 +532,7 @@ func (h *hist) cleanup() string {
 // header) exceeds receiveMTU is dropped by bufferedConn.writeProcess (true for the pinned code).
 // It is a fact about the implementation, handed to the model with every case (cfg token 5).
 func probeWdrop() string {
-	h := newHist([]string{"cfg", "1", "1", "1", "0", "1"})
+	h := newHist([]string{"cfg", "1", "1", "1", "0", "1", "0"})
 	defer h.cleanup()
 	h.wait()
 	raddr := "192.0.2.77:7000"
@@ -560,7 +560,44 @@ func probeWdrop() string {
 	return "1"
 }
 
-var wdrop string
+// probeByID finds out whether the implementation still removes packet conns by key (pinned code: a
+// GetConnByUfrag right after RemoveConnByUfrag / after the last handle's Close ends up with a closed
+// conn) or by identity with getConn ignoring closed conns (the repair).  "0" = pinned, "1" = repaired.
+func probeByID() string {
+	for i := 0; i < 6; i++ {
+		h := newHist([]string{"cfg", "1", "0", "1", "0", "1", "0"})
+		h.wait()
+		ip := net.ParseIP("10.0.0.1")
+		p1, err := h.mux.GetConnByUfrag("probe", false, ip)
+		if err != nil {
+			h.cleanup()
+			return "0"
+		}
+		h.handles[0] = p1
+		if i%2 == 0 {
+			h.mux.RemoveConnByUfrag("probe")
+		} else {
+			_ = p1.Close()
+		}
+		p2, err := h.mux.GetConnByUfrag("probe", false, ip)
+		if err != nil {
+			h.cleanup()
+			return "0"
+		}
+		h.handles[1] = p2
+		h.wait()
+		_ = p2.SetReadDeadline(time.Now().Add(2 * time.Millisecond))
+		_, _, err = p2.ReadFrom(make([]byte, 16))
+		closed := errors.Is(err, io.ErrClosedPipe)
+		h.cleanup()
+		if closed {
+			return "0"
+		}
+	}
+	return "1"
+}
+
+var wdrop, byid string
 
 // runHistory executes one case line.
 func runHistory(c *Ctx, tag string, toks []string, nontrivial bool) {
@@ -568,13 +605,18 @@ func runHistory(c *Ctx, tag string, toks []string, nontrivial bool) {
 		wdrop = probeWdrop()
 		c.Count("impl:buffered-write-drops-frames-over-receiveMTU=" + wdrop)
 	}
+	if byid == "" {
+		byid = probeByID()
+		c.Count("impl:packet-conn-removal-by-identity=" + byid)
+	}
 	if len(toks) >= 6 && toks[0] == "cfg" {
-		if toks[5] == ";" {
-			// a case recorded before the probe token existed
-			toks = append(toks[:5:5], append([]string{wdrop}, toks[5:]...)...)
-		} else {
-			toks[5] = wdrop
+		// the two probe tokens are facts about the implementation, not inputs: (re)write them, also
+		// in cases recorded before they existed
+		end := 5
+		for end < len(toks) && toks[end] != ";" {
+			end++
 		}
+		toks = append(toks[:5:5], append([]string{wdrop, byid}, toks[end:]...)...)
 	}
 	segs := splitOps(toks)
 	h := newHist(segs[0])
